@@ -10,7 +10,7 @@ use gen_project::cases::{self, CaseSpec, Exclusions};
 use gen_project::compile::{self, CliRun};
 use gen_project::mutate::{self, ALL_RULES};
 use gen_project::tape::Tape;
-use gen_project::{render, Rendered};
+use gen_project::{build_project, render, GenConfig, Rendered};
 use serde_json::{json, Value};
 use std::collections::BTreeMap;
 use std::path::Path;
@@ -163,6 +163,37 @@ pub fn materialise(spec: &CaseSpec, ex: &Exclusions) -> (Rendered, String, usize
     (render(&p), format!("multi-fault/{}", base.tier), applied)
 }
 
+/// In-process leg: as `materialise`, but three cases in four come from the refetch-dense presets
+/// (pointers every second declaration, the same client selection repeated with other arguments).
+fn materialise_inproc(spec: &CaseSpec, ex: &Exclusions) -> (Rendered, String, usize) {
+    if (spec.variant / 8) % 4 != 0 {
+        let cfg = if (spec.variant / 32) % 2 == 0 { GenConfig::advanced().dense_refs() } else { GenConfig::everything().dense_refs() };
+        let p = build_project(spec.tape.clone(), &cfg);
+        return (render(&p), "valid/dense-refs".to_string(), 0);
+    }
+    materialise(spec, ex)
+}
+
+/// dev aid: `proj inproc2 --replay FILE` — does the in-process double compilation see a difference?
+pub fn inproc2(args: &Args) {
+    let v = vcore::read_replay(args.replay.as_ref().expect("--replay"));
+    let r = cases::load_case_files(&v["input"]);
+    let dir = compile::fresh_dir("c14x", 0);
+    compile::write_project(&dir, &r);
+    for i in 0..8 {
+        let (o1, o2) = (compile::compile_inproc(&dir), compile::compile_inproc(&dir));
+        let same = match (&o1, &o2) {
+            (compile::Outcome::Artifacts(a), compile::Outcome::Artifacts(b)) => a == b,
+            _ => {
+                println!("not artifacts");
+                false
+            }
+        };
+        println!("round {i}: same={same}");
+    }
+    let _ = std::fs::remove_dir_all(&dir);
+}
+
 pub fn demo_projects() -> Vec<(String, Rendered)> {
     // the checked-in projects, copied file by file (config, schema, extensions, sources)
     let repo = vcore::repo_root();
@@ -205,7 +236,10 @@ pub fn run(args: &Args) {
         "exploration",
         "generated valid projects and multi-fault invalid projects (2-3 independent faults) plus the four checked-in \
          projects; each compiled by 3 fresh CLI processes in two layouts (opposite file creation order, decoy files); \
-         non-trivial = >= 3 source files, or >= 2 faults applied, or >= 10 artifacts; distinct by rendered files",
+         non-trivial = >= 3 source files, or >= 2 faults applied, or >= 10 artifacts; distinct by rendered files. \
+         Second leg: the same generator, each project compiled twice in-process (fresh RandomState keys per compilation) as a \
+         candidate search for hash-order dependence; a candidate counts as a violation only if fresh CLI processes reproduce a \
+         difference; non-trivial there = >= 10 artifacts or >= 2 diagnostics",
     );
     report.engine("subproc");
     vcore::set_max_shrink_iters(120);
@@ -251,6 +285,54 @@ pub fn run(args: &Args) {
     if let Some((spec, fail)) = res {
         let (r, label, _) = materialise(&spec, &ex);
         report.violation("projects", &fail, json!({"kind": label, "files": r.files}));
+    }
+
+    // Second leg — hash-seed search in-process. Every `CompilerState::new` builds its hash maps with
+    // fresh `RandomState` keys, so two compilations of one directory in one process iterate their
+    // maps in different orders, thousands of times per second instead of three processes per
+    // project. A difference seen here is only a *candidate*: the process shares interner state
+    // between the two compilations, which fresh processes do not. It becomes a violation only when
+    // fresh CLI processes reproduce a difference (up to 9 runs); otherwise it is counted and kept
+    // as a label.
+    report.engine("inproc(candidate search)");
+    let n2 = args.tier.pick(60_000, 1_000_000);
+    let res = vcore::run_prop_parallel(&report, "inproc-programs", n2, vcore::num_workers(), cases::case_strategy, |spec| {
+        let (r, label, _) = materialise_inproc(spec, &ex);
+        let k = COUNTER.fetch_add(1, Ordering::SeqCst);
+        let dir = compile::fresh_dir("c14i", k);
+        compile::write_project(&dir, &r);
+        let o1 = compile::compile_inproc(&dir);
+        let o2 = compile::compile_inproc(&dir);
+        let _ = std::fs::remove_dir_all(&dir);
+        use compile::Outcome::*;
+        let (same, outcome) = match (&o1, &o2) {
+            (Artifacts(a), Artifacts(b)) => (a == b, "artifacts"),
+            (Diagnostics(a), Diagnostics(b)) => (a == b, "diagnostics"),
+            (Panic(_), _) | (_, Panic(_)) => (true, "crash(C08)"),
+            (SetupError(_), SetupError(_)) => (true, "setup-error"),
+            _ => (false, "outcome-kind"),
+        };
+        let mut res = Ok(());
+        let mut verdict = "same";
+        if !same {
+            verdict = "inproc-only-difference";
+            for _ in 0..3 {
+                if let Err(f) = check_files(&r) {
+                    verdict = "confirmed-by-fresh-processes";
+                    res = Err(f);
+                    break;
+                }
+            }
+        }
+        let n_art = if let Artifacts(a) = &o1 { a.len() } else { 0 };
+        let nontrivial = same && (n_art >= 10 || matches!(&o1, Diagnostics(d) if d.len() >= 2));
+        let key = format!("{:?}", r.files);
+        report.case(if nontrivial { Some(&key) } else { None }, &[&format!("inproc:{label}"), &format!("inproc-outcome:{outcome}"), &format!("inproc-verdict:{verdict}")]);
+        res
+    });
+    if let Some((spec, fail)) = res {
+        let (r, label, _) = materialise_inproc(&spec, &ex);
+        report.violation("inproc-programs", &fail, json!({"kind": label, "files": r.files}));
     }
     report.finish();
 }
